@@ -341,6 +341,33 @@ def check_e(ck, repo):
             if not found:
                 ck.holds("C04.e", fi, f"{label}: no batch statistic reaches a returned value", "reductions are row-wise (axis=1, single rows) or do not depend on the data")
             for st, msg in found:
+                fact = [c_ for c_ in ast.walk(st) if isinstance(c_, ast.Call) and src_of(c_.func).split(".")[-1] == "unique" and any(k_.arg == "return_inverse" and isinstance(k_.value, ast.Constant) and k_.value.value is True for k_ in c_.keywords)]
+                inv_names = set()
+                if fact and isinstance(st, ast.Assign) and isinstance(st.targets[0], (ast.Tuple, ast.List)) and len(st.targets[0].elts) >= 2 and isinstance(st.targets[0].elts[1], ast.Name) and st.value is fact[0]:
+                    inv_names.add(st.targets[0].elts[1].id)
+                if fact and inv_names:
+                    # the inverse index used as a value (not as an index into a table) is the rank of
+                    # the row's value among the values present in the batch
+                    as_value = []
+                    for n_ in own_nodes(fi.node):
+                        if isinstance(n_, ast.Name) and n_.id in inv_names and isinstance(n_.ctx, ast.Load):
+                            cur, child, in_index = getattr(n_, "_parent", None), n_, False
+                            while cur is not None and not isinstance(cur, ast.stmt):
+                                if isinstance(cur, ast.Subscript) and cur.slice is child or (isinstance(cur, ast.Subscript) and any(x is child for x in ast.walk(cur.slice))):
+                                    in_index = True
+                                    break
+                                child, cur = cur, getattr(cur, "_parent", None)
+                            if not in_index:
+                                as_value.append(n_)
+                    if as_value:
+                        ck.violated("C04.e", fi, st, f"{label}: the inverse index of {src_of(fact[0])[:60]} is used as a value ({src_of(sem.stmt_of(as_value[0]))[:60]}): it is the rank of the row's value among the values present in the batch, so the output for a row depends on which other rows are in the batch")
+                        continue
+                if fact:
+                    # values, inverse = unique(A, return_inverse=True): values[inverse] is A again, so a
+                    # table computed per distinct value and read back through `inverse` is row-wise;
+                    # whether the code uses the pair that way is not decided here
+                    ck.unknown("C04.e", fi, st, f"{label}: the rows are factorised by {src_of(fact[0])[:60]}: row-wise only if every use of the distinct values is read back through the inverse index, which this rule does not follow")
+                    continue
                 ck.violated("C04.e", fi, st, f"{label}: {msg}: the output for a row depends on which other rows are in the batch")
     return n
 
